@@ -302,7 +302,7 @@ def kt_obs(tier):
         f = inspect.unwrap(XM.INT)
 
         def encode():
-            leaves, it = K.explore(f, [q], qdom, MM.MATH_MODELS)
+            leaves, it = K.explore(f, [q], [q >= -BIG2, q <= BIG2], MM.MATH_MODELS)
             return leaves, it, {'q': q}
 
         def bad(l):
@@ -312,8 +312,8 @@ def kt_obs(tier):
             x = frac(a['q'])
             got = nat(XM.INT, x)
             return got == ('num', float(math.floor(x))), f'INT({x!r}) = {got}, floor = {math.floor(x)}'
-        return dict(encode=encode, bad=bad, replay=replay, norm=norm, native=lambda a: nat(XM.INT, frac(a['q'])), samples=[{'q': s} for s in SAMP_Q if s[1] != 3 and abs(s[0]) <= BIG * s[1]], show=lambda a: f'INT({frac(a["q"])})')
-    obs.append(kt_ob('c16.INT', sp_int, family='c16.rounding', bounds='INT(q): every real q in -10^15..10^15: toward minus infinity (floor)', cost=10))
+        return dict(encode=encode, bad=bad, replay=replay, norm=norm, native=lambda a: nat(XM.INT, frac(a['q'])), samples=[{'q': s} for s in SAMP_Q if s[1] != 3], show=lambda a: f'INT({frac(a["q"])})')
+    obs.append(kt_ob('c16.INT', sp_int, family='c16.rounding', bounds='INT(q): every real q in -10^60..10^60: toward minus infinity (floor), never an exception', cost=10))
 
     def sp_trunc():
         f = inspect.unwrap(XM.TRUNC)
